@@ -41,6 +41,9 @@ func runDispatch(cfg *runCfg) {
 	if cfg.tier == "thorough" {
 		directed = append(directed, dr{1001, 5}, dr{2500, 3}, dr{700, 4}, dr{333, 2}, dr{1000, 1}, dr{1200, 5})
 	}
+	// one dispatcher object for all rounds, as in a running leader (Do is called on every tick): state kept
+	// between rounds must not influence a round
+	disp := mod.NewDefDispatcher()
 	for it := 0; it < n; it++ {
 		w.Srv.Clear()
 		// population
@@ -90,7 +93,7 @@ func runDispatch(cfg *runCfg) {
 			}
 		}
 		before := w.Srv.Dump("dag_instance")
-		err := mod.NewDefDispatcher().Do()
+		err := disp.Do()
 		after := w.Srv.Dump("dag_instance")
 		ec := 0
 		if err != nil {
